@@ -243,7 +243,7 @@ def iso_req(q, rng, keys, fail="", plain=False):
         # a selection that names no installed rule: refused, and the instance handed back exactly once
         r.update(method=rng.choice(["ExecuteSelectedRules", "ExecuteSelectedRulesWithControl", "ExecuteSelectedRulesConcurrent",
                                     "ExecuteSelectedRulesMixModel", "ExecuteSelectedRulesInverseMixModel"]), via="direct",
-                 names=["nosuch1", "nosuch2"], fail="")
+                 names=["nosuch1", "nosuch2"], fail="", odd=True)
     elif x < 0.10 and keys:
         # the two-object entry point with only its second object: nothing called `req` is injected
         r.update(method="Execute", via="emresp", names=None, fail="")
@@ -252,7 +252,14 @@ def iso_req(q, rng, keys, fail="", plain=False):
         # hands back nothing of anybody else
         r.update(method=rng.choice(["ExecuteNSortMConcurrent", "ExecuteNConcurrentMSort", "ExecuteNConcurrentMConcurrent",
                                     "ExecuteSelectedNSortMConcurrent"]), via="direct", names=["own", "pa"],
-                 n=rng.choice([5, 0, -1, 9]), m=rng.choice([5, 1, 0]), fail="")
+                 n=rng.choice([5, 0, -1, 9]), m=rng.choice([5, 1, 0]), fail="", odd=True)
+    elif x < 0.22:
+        # a stop-tag request that stops on its first error: its first rule sets the tag and then fails.  Nothing of that
+        # (neither the tag nor the early exit) may reach the request that uses the instance next
+        m = rng.choice(["ExecuteWithStopTagDirect", "ExecuteSelectedRulesWithControlAndStopTag",
+                        "ExecuteSelectedRulesWithControlAndStopTagAsGivenSortedName", "ExecuteWithStopTagDirect"])
+        r.update(call_for(m, ["own", "pa", "pb", "pc", "pd", "pe"], 6))
+        r.update(b=False, fail=rng.choice(["boom", "boom", ""]), tag=True)
     return r
 
 
